@@ -168,7 +168,12 @@ package mail
 //@ func mail.Client.Send
 //@   requires[C13:wf] c != nil && !sendlocked(c) && (c.smtpClient != nil ==> !mw(c.smtpClient))
 //@   ensures[C13:released] !sendlocked(c)
-//@ at mail.Client.Send mail.Client.SendWithSMTPClient#1 before assert[C13:batch-locked] sendlocked(c)
+//@ at mail.Client.Send mail.Client.SendWithSMTPClient#1 before assert[C03,C13:batch-locked] sendlocked(c)
+// (C03: interleaving two batches on the shared connection would let the second sender's first command close the
+//  first sender's open DATA section - textproto closes an open dot-writer on the next command. The history
+//  assumption of SendWithSMTPClient is the one of Send for the shared connection.)
+//@ func mail.Client.Send
+//@   requires[C03:hist] c != nil && (c.smtpClient != nil ==> csess(c.smtpClient) && txidle(c.smtpClient.Text))
 //@ func mail.Client.DialToSMTPClientWithContext (ctxDial) (client, err)
 //@   requires[C13:wf] c != nil
 //@   ensures[C13:private] err == nil ==> fresh(client) && !mw(client)
@@ -352,11 +357,13 @@ package mail
 //@ func mail.msgWriter.writePart (part, charset)
 //@   requires[C02:typed] mw != nil && part != nil && nocrlf(part.contentType) && nocrlf(part.charset) && nocrlf(part.encoding) && nocrlf(charset)
 //@ func mail.Encoding.String
-//@   ensures[C02:id] result == e
+//@   ensures[C02,C10:id] result == e
 //@ func mail.ContentType.String
 //@   ensures[C02:id] result == c
 //@ func mail.Charset.String
 //@   ensures[C02:id] result == c
+//@ func mail.Header.String
+//@   ensures[C02,C10:id] result == h
 // header folding cannot end the header block: what writeHeader hands to writeString before the final CRLF is
 // "folded" - every line break in it is followed by a blank - and starts with the first byte of the key
 //@ pred wordsafe(ws []string) = forall j :: 0 <= j && j < len(ws) ==> nocrlf(ws[j])
@@ -1123,8 +1130,8 @@ package mail
 // give the value back, so runs of blanks and leading / trailing blanks survive the folding (strings.Fields would not do);
 // (b) outside writeHeader the renderer writes nothing but line breaks to the header sections directly - every header
 // line of a part at depth 0 goes through writeHeader and is folded there
-//@ at mail.msgWriter.writeHeader strings.Builder.WriteString#3 before assert[C06,C18:words-rejoin-to-the-value] joined(words, " ") == fullValueStr
-//@ at mail.msgWriter.writeHeader strings.Builder.String#1 before assert[C06,C18:words-rejoin-to-the-value] joined(words, " ") == fullValueStr
+//@ at mail.msgWriter.writeHeader strings.Builder.WriteString#3 before assert[C01,C06,C18:words-rejoin-to-the-value] joined(words, " ") == fullValueStr
+//@ at mail.msgWriter.writeHeader strings.Builder.String#1 before assert[C01,C06,C18:words-rejoin-to-the-value] joined(words, " ") == fullValueStr
 //@ at mail.msgWriter.addFiles mail.msgWriter.writeString#* before assert[C18:only-line-breaks-written-directly] arg1 == "\r\n"
 //@ at mail.msgWriter.writePart mail.msgWriter.writeString#* before assert[C18:only-line-breaks-written-directly] arg1 == "\r\n"
 
@@ -1151,3 +1158,52 @@ package mail
 //@ ghost field lastrnd string
 //@ at mail.msgWriter.writeMsg mail.randomBoundary#1 after ghost[C08:g] world.lastrnd = r0
 //@ at mail.msgWriter.writeMsg mail.msgWriter.startMP#1 before assert[C08:signed-layer-boundary-of-its-own] arg2 == world.lastrnd
+
+// C02 (continued): the file options leave the header map of the File clean: whatever text they are given goes into a
+// field of the File (Name, Desc, ...) and reaches a header only through addFiles, which encodes it - never raw into the
+// header map (only the Content-ID option writes there; addFiles strips CR / LF from that value). This discharges, for
+// the options, what filesafeX assumes about a File at addFiles.
+//@ func mail.WithFileName$1 (f)
+//@   requires[C02:wf] f != nil
+//@   ensures[C02:file-option-keeps-header-clean] f.Header == old(f.Header) && f.Header.hdrtaint == old(f.Header.hdrtaint)
+//@ func mail.WithFileDescription$1 (f)
+//@   requires[C02:wf] f != nil
+//@   ensures[C02:file-option-keeps-header-clean] f.Header == old(f.Header) && f.Header.hdrtaint == old(f.Header.hdrtaint)
+//@ func mail.WithFileEncoding$1 (f)
+//@   requires[C02:wf] f != nil
+//@   ensures[C02:file-option-keeps-header-clean] f.Header == old(f.Header) && f.Header.hdrtaint == old(f.Header.hdrtaint)
+//@ func mail.WithFileContentType$1 (f)
+//@   requires[C02:wf] f != nil
+//@   ensures[C02:file-option-keeps-header-clean] f.Header == old(f.Header) && f.Header.hdrtaint == old(f.Header.hdrtaint)
+//@ func mail.WithFileContentID$1 (f)
+//@   requires[C02:wf] f != nil && f.Header != nil
+//@   ensures[C02:file-option-keeps-header-clean] f.Header == old(f.Header) && f.Header.hdrtaint == old(f.Header.hdrtaint)
+
+// C12 (continued): the other ways out of the library report a failed render as well - Write and WriteToFile return
+// WriteTo's error (WriteToFile: also when closing the file succeeds), NewReader / UpdateReader record it in the Reader
+//@ ghost field wterr bool
+//@ at mail.Msg.WriteToFile entry ghost[C12:g] world.wterr = false
+//@ at mail.Msg.WriteToFile mail.Msg.WriteTo#1 after ghost[C12:g] world.wterr = (r1 != nil)
+//@ func mail.Msg.WriteToFile (name) (err)
+//@   requires[C12:wf] msgok(m) && len(m.middlewares) == 0
+//@   ensures[C12:render-failure-reported-by-every-path] world.wterr ==> err != nil
+//@ at mail.Msg.Write entry ghost[C12:g] world.wterr = false
+//@ at mail.Msg.Write mail.Msg.WriteTo#1 after ghost[C12:g] world.wterr = (r1 != nil)
+//@ func mail.Msg.Write (writer) (n, err)
+//@   requires[C12:wf] msgok(m) && len(m.middlewares) == 0 && writer != nil && allocated(writer) && writer.under == nil
+//@   ensures[C12:render-failure-reported-by-every-path] world.wterr ==> err != nil
+//@ at mail.Msg.NewReader entry ghost[C12:g] world.wterr = false
+//@ at mail.Msg.NewReader mail.Msg.Write#1 after ghost[C12:g] world.wterr = (r1 != nil)
+//@ func mail.Msg.NewReader () (r)
+//@   requires[C12:wf] msgok(m) && len(m.middlewares) == 0
+//@   ensures[C12:render-failure-reported-by-every-path] world.wterr ==> r.err != nil
+//@ at mail.Msg.UpdateReader entry ghost[C12:g] world.wterr = false
+//@ at mail.Msg.UpdateReader mail.Msg.Write#1 after ghost[C12:g] world.wterr = (r1 != nil)
+//@ func mail.Msg.UpdateReader (reader)
+//@   requires[C12:wf] reader != nil && msgok(m) && len(m.middlewares) == 0
+//@   ensures[C12:render-failure-reported-by-every-path] world.wterr ==> reader.err != nil
+
+// C10 (continued): a body part of a multipart message is base64-decoded only when its OWN Content-Transfer-Encoding
+// header says base64 - never because of a default or of the part before it (mime/multipart drops the header of a
+// quoted-printable part after decoding it: a part without the header must be stored as read)
+//@ at mail.parseEMLMultipart mail.handleEMLMultiPartBase64Encoding#1 before assert[C10:decoded-by-its-own-header] ("Content-Transfer-Encoding" in multiPart.Header) && len(multiPart.Header["Content-Transfer-Encoding"]) >= 1 && foldeq(multiPart.Header["Content-Transfer-Encoding"][0], "base64")
